@@ -346,13 +346,38 @@ def generators(ctx):
     # each metamodel owns its generator
     init = repo.func('xtuml.meta:MetaModel.__init__')
     p = param_names(init)[0]
-    fresh = False
-    for node, env in pm.find('if %s is None:\n    %s = _G()' % (p, p), init):
-        g = dotted(env['_G'])
-        fresh = g is not None and g.split('.')[-1] == 'UUIDGenerator'
+    # abstract execution: what is stored in self.id_generator when no generator / a generator is given
+    from .. import absint as _ai
+    stored = {}
+
+    def truth(e, s, tr):
+        x = e['_X']
+        if isinstance(x, ast.Name) and x.id == p:
+            return s['given']
+        return None
+
+    def store(e, s, tr):
+        v = e['_V']
+        hops = 0
+        while isinstance(v, ast.IfExp) and hops < 4:
+            hops += 1
+            v = v.body if it_.cond(v.test, s, tr) else v.orelse
+        tr.append(('store', v))
+        return True
+    it_ = _ai.Interp(init, [('_X is None', lambda e, s, tr: (None if truth(e, s, tr) is None else not truth(e, s, tr))), ('_X is not None', truth),
+                           ('not _X', lambda e, s, tr: (None if truth(e, s, tr) is None else not truth(e, s, tr))), ('_X', truth)],
+                     [('self.id_generator = _V', store)], ignore=['self._A = _V'])
+    it_.pure_calls = {'UUIDGenerator', 'dict', 'list'}
+    for given in (False, True):
+        out_, tr_ = it_.run({'given': given})
+        vals = [t[1] for t in tr_ if isinstance(t, tuple) and t[0] == 'store']
+        v = _ai.strip0(vals[-1]) if vals else None
+        stored[given] = v
+    g = dotted(stored[False].func) if isinstance(stored[False], ast.Call) and not stored[False].args and not stored[False].keywords else None
+    fresh = g is not None and g.split('.')[-1] == 'UUIDGenerator'
     defaults_ok = all(isinstance(d, ast.Constant) and d.value is None for d in init.args.defaults)
     r.check(fresh and defaults_ok, 'MetaModel() creates its own UUIDGenerator when none is given', init,
             construct='xtuml.meta:MetaModel.__init__', key='own-generator',
             msg='MetaModel.__init__ does not create a fresh generator per metamodel (shared default?)')
-    r.check(pm.contains('self.id_generator = %s' % p, init), 'the generator is stored on the metamodel', init,
+    r.check(isinstance(stored[True], ast.Name) and stored[True].id == p, 'a given generator is stored on the metamodel', init,
             construct='xtuml.meta:MetaModel.__init__', key='store-generator', msg='id_generator is not stored on the metamodel')
